@@ -456,10 +456,9 @@ class JakesSampleGenerator(FadingSampleGenerator):
             num_samples = 1
 
         # Generate a 1D numpy with the time samples
-        t = np.arange(
-            self._current_time,  # Start time
-            num_samples * self.Ts + self._current_time,
-            self.Ts * 1.0000000001)
+        # Note: np.arange(start, stop, step) with a float step may return
+        # one element more than num_samples when the start time is large
+        t = self._current_time + np.arange(num_samples) * self.Ts
 
         # Update the self._current_time variable with the value of the next
         # time sample that should be generated when _generate_time_samples
